@@ -195,8 +195,10 @@ EncSeqOf(s, t) ==
       ELSE IF FixedSize(t) THEN EncElems(s0, t.v, 1, n)
       ELSE IF SizeIsCW(t) THEN EncElems(PutSizeCW(s0, n, t), t.v, 1, n)
       ELSE EncFragments(s0, n, 1, "elem", t.v)
+\* an open type node may carry its contents as given octets (raw) instead of a value: used by the fault model to corrupt the contents
+\* of a container while every enclosing length stays consistent
 EncOpen(s, t) ==
-   LET inner == PerComplete(PerEnc(PerEmpty, t.v))
+   LET inner == IF "raw" \in DOMAIN t THEN t.raw ELSE PerComplete(PerEnc(PerEmpty, t.v))
    IN PerAlign(EncFragments(s, Len(inner), 1, "oct", inner))
 PerEnc(s, t) ==
    CASE t.k = "int" -> EncInt(s, t)
@@ -256,6 +258,30 @@ PerMarks(s, t, base) ==
           [s |-> PerEnc(s, t), m |-> here, ln |-> IF FixedSize(t) THEN {} ELSE {base + PerPos(PerAlign(s0))}]
      [] OTHER -> [s |-> PerEnc(s, t), m |-> here, ln |-> {}]
 PerFieldStarts(t) == PerMarks(PerEmpty, t, 0).m
+\* paths to the open type nodes of a value tree (a path: field index / element index / 0 for the value of a CHOICE or open type)
+RECURSIVE OpenPaths(_, _)
+RECURSIVE OpenPathsSeq(_, _, _, _)
+OpenPathsSeq(vs, p, i, isFields) ==
+   IF i > Len(vs) THEN <<>>
+   ELSE (IF isFields THEN (IF vs[i].present THEN OpenPaths(vs[i].v, Append(p, i)) ELSE <<>>) ELSE OpenPaths(vs[i], Append(p, i)))
+        \o OpenPathsSeq(vs, p, i + 1, isFields)
+OpenPaths(t, p) ==
+   CASE t.k = "open" -> <<p>> \o OpenPaths(t.v, Append(p, 0))
+     [] t.k = "choice" -> OpenPaths(t.v, Append(p, 0))
+     [] t.k = "seq" -> OpenPathsSeq(t.fields, p, 1, TRUE)
+     [] t.k = "seqof" -> OpenPathsSeq(t.v, p, 1, FALSE)
+     [] OTHER -> <<>>
+RECURSIVE NodeAt(_, _)
+NodeAt(t, p) == IF Len(p) = 0 THEN t
+                ELSE CASE t.k \in {"open", "choice"} -> NodeAt(t.v, Tail(p))
+                       [] t.k = "seq" -> NodeAt(t.fields[Head(p)].v, Tail(p))
+                       [] t.k = "seqof" -> NodeAt(t.v[Head(p)], Tail(p))
+RECURSIVE SetRawAt(_, _, _)
+SetRawAt(t, p, raw) ==
+   IF Len(p) = 0 THEN [k |-> "open", raw |-> raw]
+   ELSE CASE t.k \in {"open", "choice"} -> [t EXCEPT !.v = SetRawAt(t.v, Tail(p), raw)]
+          [] t.k = "seq" -> [t EXCEPT !.fields[Head(p)].v = SetRawAt(t.fields[Head(p)].v, Tail(p), raw)]
+          [] t.k = "seqof" -> [t EXCEPT !.v[Head(p)] = SetRawAt(t.v[Head(p)], Tail(p), raw)]
 PerLengthPositions(t) == PerMarks(PerEmpty, t, 0).ln
 
 (* A BIT STRING value is its first nbits bits: the unused low-order bits of the last octet (and octets beyond it) of the Go   *)
